@@ -169,6 +169,28 @@ _m('C18',
    'fall back to text equality.',
    'DESIGN.md §3 C18')
 
+_m('C09',
+   'numeric abstract interpretation (intervals with open/closed ends + NaN flag + order facts, path-sensitive, inlined, class invariants by fixpoint); NaN-structure table; refuse-before-effect; reset completeness',
+   'Decides that no Tally/Counter query, nor register with its publishing chain in the event-based and simulation '
+   'variants, can raise an implicit arithmetic error (division by zero, pow/sqrt/inv_cdf domain) for any admitted '
+   'observation history: every arithmetic sink is proved from guards and inferred field invariants; that each getter '
+   'returns NaN exactly below its documented observation threshold (0..4 and >=5 observations, 11 getter variants); '
+   'that rejected observations change nothing; that initialize resets every accumulator; that Counter is sum and '
+   'count of its increments. Numerical accuracy of the moment recurrences is not decided.',
+   'Axioms m2 >= 0, m4 >= 0 (numerical facts of the recurrences); real-number semantics without overflow/rounding; '
+   'stdlib math domains trusted.',
+   'DESIGN.md §3 C09')
+
+_m('C10',
+   'numeric abstract interpretation of the weighted getters and register chains; NaN-structure table over non-zero-weight counts; refuse-before-effect; reset completeness; protocol-shape rules for the timestamped tally',
+   'Decides that no weighted / timestamp-weighted query or register chain can raise an implicit arithmetic error, that '
+   'NaN is returned exactly where the documentation says the statistic is undefined, that rejected input changes '
+   'nothing, that initialize resets all accumulators including the timestamp state, and that the timestamp protocol '
+   'has the required shape (order guard first, accumulate max(0, t - last) x previous value only while active, '
+   'end_observations = register then deactivate). Equality with the exact integrals is not decided.',
+   'Axiom weight_times_variance >= 0; real-number semantics; negative and NaN weights are refused by register (checked).',
+   'DESIGN.md §3 C10')
+
 
 def finalize():
     for i in range(1, 19):
